@@ -62,4 +62,20 @@ PROPS = {
                        "its iteration order; the implementation is compared with the model step by step (result of every operation and "
                        "get over the whole key universe after it) and checked against an independent map-law oracle.",
     },
+    "C15": {
+        "subs": ["c15"],
+        "level": "proof",
+        "rule": "random edit histories on petgraph StableDiGraph (add node with edges, add edge incl. parallel edges, remove edge, remove node) "
+                "interleaved with next(): 3/4 admissible by construction (acyclic, node 0 the only source, no edge into an emitted node "
+                "from an unemitted one, no identifier reuse), 1/4 unrestricted; exact emitted sequences compared with the model; "
+                "non-trivial = at least one edit lies between two next calls",
+        "trusted_base": [KERNEL, EXTRACT, HARNESS, MODELLED + " (Model/Toposort.v <-> utils/toposort.rs OnlineToposort::next; petgraph adjacency "
+                         "order is taken from the real graph at every call)"],
+        "assumptions": COMMON_ASSUMPTIONS + [
+            "the iteration order of the private visited set is reproduced by a shadow FxHashSet with the same insertion history and handed to the model",
+            "the three clauses are judged on the implementation only for admissible histories; on other histories only model and implementation are compared"],
+        "explanation": "at-most-once and predecessors-first are proved for all histories of graph snapshots and all iteration orders; exhaustiveness for "
+                       "every call that reports None on a graph that is acyclic at that moment and whose sources have all been emitted; "
+                       "termination/no-panic of each call for graphs whose edges end on existing nodes.",
+    },
 }
